@@ -11,6 +11,10 @@ Require Import UPV.Core.Expr UPV.Core.Eval UPV.Core.Interp UPV.Planning.Problem 
 (* compact constructors for the compiled problems (all their effects are Boolean assignments of constants) *)
 Definition ke (f : N) (args : list expr) (v : bool) (cond : expr) : effect :=
   {| e_fl := f; e_args := args; e_val := EBool v; e_cond := cond; e_kind := KAssign; e_vars := []; e_isbool := true |}.
+Definition fl (f : N) (os : list N) : expr := EFluent f (map EObj os).
+Definition nfl (f : N) (os : list N) : expr := ENot (fl f os).
+Definition ko (f : N) (os : list N) (v : bool) (cond : expr) : effect := ke f (map EObj os) v cond.
+Definition tt : expr := EBool true.
 Definition ka (pre : list expr) (effs : list effect) : action := {| a_params := []; a_pre := pre; a_effs := effs |}.
 Definition fb (f : N) (sig : list N) : fdecl := {| fd_id := f; fd_sig := sig; fd_ty := FBool |}.
 Definition nr (c : list lit) (t : lit) : nrule := {| r_cond := c; r_tgt := t |}.
